@@ -1,5 +1,5 @@
 (* C05 — the theorems assembled over all operations. *)
-From C05 Require Import Model Spec Corr Proofs ProofsRound ProofsBits ProofsCmp ProofsDiv ProofsGcd.
+From C05 Require Import Model Spec Corr Proofs ProofsRound ProofsBits ProofsCmp ProofsDiv ProofsGcd ProofsArith.
 Open Scope Z_scope.
 
 (* inside the guard: exact result, canonical representation, operands untouched *)
